@@ -49,6 +49,11 @@ def build_dirty(spec, dv=8):
             keep[rs.choice(len(F), size=drop, replace=False)] = False
             F = F[keep]
             info.append("open")
+    elif base["kind"] == "lattice":
+        # distinct points of a small integer lattice that contains 0 (grid / origin anchored meshes)
+        V = np.array(base["pts"], dtype=np.float64).reshape((-1, 3)) * float(base.get("step", 1.0))
+        F = np.array(base["faces"], dtype=np.int64).reshape((-1, 3))
+        info.append("lattice")
     else:
         nv = int(base["nv"])
         F = np.array(base["faces"], dtype=np.int64).reshape((-1, 3))
@@ -92,6 +97,53 @@ def build_dirty(spec, dv=8):
             i, c = slots[int(rs.randint(len(slots)))]
             F[i][c] = new
         info.append("dupv_" + mode)
+
+    # ---- vertices with a non-finite coordinate that collide with another referenced vertex once the non-finite slot is
+    # ignored or sanitised: "zero" = copy of a vertex that has 0 in that slot, "any" = copy of any vertex, "same" = exact
+    # copy of an earlier non-finite vertex, "other" = copy of it with another non-finite value in the slot
+    NFV = {"nan": np.nan, "inf": np.inf, "-inf": -np.inf}
+    made = []  # (index, axis)
+    for ent in spec.get("nfdup") or []:
+        mode, val = ent["mode"], NFV[ent["val"]]
+        if mode in ("same", "other") and made:
+            w0, ax = made[int(rs.randint(len(made)))]
+            p = V[w0].copy()
+            if mode == "other":
+                p[ax] = [x for x in (np.inf, -np.inf, np.nan) if not (x == V[w0][ax] or (np.isnan(x) and np.isnan(V[w0][ax])))][int(rs.randint(2))]
+            v = w0
+        else:
+            fin = [i for i in range(len(V)) if np.isfinite(V[i]).all()]
+            if not fin:
+                continue
+            zero = [(i, a) for i in fin for a in range(3) if V[i][a] == 0.0]
+            if mode == "zero" and zero:
+                v, ax = zero[int(rs.randint(len(zero)))]
+            else:
+                v, ax = fin[int(rs.randint(len(fin)))], int(rs.randint(3))
+            p = V[v].copy()
+            p[ax] = val
+        new = len(V)
+        V.append(p)
+        made.append((new, ax))
+        same_data = rs.rand() < 0.7
+        cu.append(cu[v] if same_data else 4000 + new)
+        cn.append(cn[v] if same_data else int(rs.randint(len(DIRS))))
+        noff.append(noff[v] if same_data else 0.0)
+        slots = [(i, c) for i, f in enumerate(F) for c in range(3) if f[c] == v]
+        if len(slots) >= 2 and rs.rand() < 0.5:
+            # re-point some (not all) corners of v
+            k = int(rs.randint(1, len(slots)))
+            for j in rs.choice(len(slots), size=k, replace=False):
+                i, c = slots[int(j)]
+                F[i][c] = new
+        else:
+            others = [i for i in range(len(V) - 1) if i != v]
+            if len(others) >= 2:
+                a, b = [int(x) for x in rs.choice(others, 2, replace=False)]
+                F.append(list(_variant((new, a, b), int(rs.randint(3)))))
+                if not slots:
+                    F.append(list(_variant((v, b, a), int(rs.randint(3)))))
+        info.append("nfdup_" + mode)
 
     # ---- repeated faces (same, rotated or reversed index order)
     for _ in range(int(spec.get("repf", 0))):
@@ -239,6 +291,29 @@ def dirty_spec(draw, nonfinite=False, max_parts=2, clean_p=False):
         d["nonfinite"] = draw(st.sampled_from([0, 1, 2]))
         d["nonfinite_ref"] = draw(st.sampled_from([False, False, False, True]))
     return d
+
+
+@st.composite
+def lattice_spec(draw):
+    """dirty spec on a small lattice containing 0, with colliding non-finite vertices"""
+    coord = st.integers(-1, 2)
+    pts = draw(st.lists(st.tuples(coord, coord, coord), min_size=4, max_size=9, unique=True))
+    idx = st.integers(0, len(pts) - 1)
+    faces = draw(st.lists(st.lists(idx, min_size=3, max_size=3, unique=True), min_size=2, max_size=10))
+    ent = st.fixed_dictionaries({"mode": st.sampled_from(["zero", "zero", "any", "same", "other"]), "val": st.sampled_from(["nan", "nan", "inf", "-inf"])})
+    return {
+        "base": {"kind": "lattice", "pts": [list(p) for p in pts], "faces": faces, "step": draw(st.sampled_from([1.0, 1.0, 0.5, 0.01]))},
+        "seed": draw(st.integers(0, 2**31 - 1)),
+        "scale": 1.0,
+        "dupv": draw(st.sampled_from([0, 0, 1, 2])),
+        "dup_modes": draw(st.lists(st.sampled_from(DUP_MODES), min_size=1, max_size=2, unique=True)),
+        "nfdup": draw(st.lists(ent, min_size=1, max_size=3)),
+        "repf": draw(st.sampled_from([0, 0, 1])),
+        "degen": 0,
+        "unref": draw(st.sampled_from([0, 0, 1, 2])),
+        "relabel": draw(st.booleans()),
+        "permute": draw(st.booleans()),
+    }
 
 
 @st.composite
